@@ -58,8 +58,12 @@ AllProf == [L |-> "all", G |-> "all", H |-> "all", R |-> "all"]
 \* (mtype says which: 0 undefined, 4 / 5 the authentication types, 9 and 255 unassigned); it is answered by disconnecting
 BadTypes == {"t0", "t4", "t5", "t9", "t255"}
 Cfgs == {c \in [kind : Kinds, route : Routes, prof : ProfSets, veto : Vetoes, vkind : {"veto", "panic"},
-                hout : Houts, dec : {"ok", "bad"}, rdec : {"ok", "bad"}, wret : {"atonce", "late"}, mtype : {"std"} \cup BadTypes] :
+                hout : Houts, dec : {"ok", "bad"}, rdec : {"ok", "bad"}, wret : {"atonce", "late"}, mtype : {"std"} \cup BadTypes,
+                pre : {"none", "deadlinewrite"}] :
            /\ VetoOK(c)
+           \* pre = "deadlinewrite": earlier on, the serving session wrote a message of its own under a context deadline (a push
+           \* with a timeout), and that deadline has passed since; the exchange must not be affected
+           /\ (c.pre # "none" => c.veto = NoVeto /\ c.kind = "call" /\ c.dec = "ok" /\ c.rdec = "ok" /\ c.prof = AllProf /\ c.vkind = "veto" /\ c.wret = "atonce")
            /\ (c.kind = "badtype" <=> c.mtype # "std")
            /\ (c.kind = "badtype" => c.route = "reg" /\ c.prof = AllProf /\ c.veto = NoVeto /\ c.vkind = "veto" /\ c.hout = "ok"
                                      /\ c.dec = "ok" /\ c.rdec = "ok" /\ c.wret = "atonce")
